@@ -176,7 +176,7 @@ func (p proxyHandler) tunnel(name string, rw http.ResponseWriter, req *http.Requ
 			brw:   brw,
 			conn:  conn,
 		}
-		if err := pc.writeResponse(res); err != nil {
+		if err := pc.writeResponseDeferTrace(res, true); err != nil {
 			return err
 		}
 
@@ -397,7 +397,6 @@ func (p proxyHandler) writeResponse(rw http.ResponseWriter, res *http.Response) 
 		}
 	}
 
-	if !skipTraceWroteResponse(res, err) {
-		p.traceWroteResponse(res, err)
-	}
+	// No tunnel follows a response written here (see tunnel), always trace.
+	p.traceWroteResponse(res, err)
 }
